@@ -144,7 +144,14 @@ def evaluate(ck, recs):
         opname = step["op"] if step else "?"
         key = "c04:%s:%s" % ("invariant" if spec_bad else "model", opname)
         lost = [hh for hh, b in enumerate((step or {}).get("bodies") or []) if b.startswith("ERR") and hh <= (prev or step)["fin"]]
-        if step and step["what"].startswith("dup-tx") and lost and prev and step["chain"][:len(lost) and max(lost) + 1] == prev["chain"][:max(lost) + 1]:
+        # the known finding is EXACTLY: deleting the block that repeated the transaction leaves everything right (finalized height
+        # unchanged, one Delete event for that block, chain shorter by one, IDs unchanged) except that the full block of the OWNER of
+        # the repeated transaction can no longer be read; anything else on that step is reported under its own key
+        if (step and prev and step["what"].startswith("dup-tx: delete") and step.get("dup_owner") is not None
+                and lost == [step["dup_owner"]] and step["fin"] == prev["fin"]
+                and len(step["chain"]) == len(prev["chain"]) - 1 and step["chain"] == prev["chain"][:-1]
+                and [(e["t"], e["id"]) for e in step["events"]] == [("delete", prev["chain"][-1])]
+                and all(b == pb for hh, (b, pb) in enumerate(zip(step["bodies"], prev["bodies"])) if hh != step["dup_owner"])):
             key = "c04:dup-tx:finalized-block-body-lost"
         what = ("history step %d (%s: %s, class %s): finalized %s -> %s, chain length %s -> %s, events %s: %s" % (
             k, opname, step and step["what"], step and step["class"], prev and prev["fin"], step and step["fin"],
@@ -198,30 +205,32 @@ def run(ck):
         k = h.get("sync_kind")
         if not k:
             continue
-        e = kinds.setdefault(k, {"runs": 0, "hang": 0, "reached_peer_tip": 0, "results": {}})
+        e = kinds.setdefault(k, {"runs": 0, "hang": 0, "shows_kind": 0, "results": {}})
         e["runs"] += 1
         e["hang"] += 1 if h.get("sync_hang") else 0
-        e["reached_peer_tip"] += 1 if h.get("sync_reached_peer_tip") else 0
+        e["shows_kind"] += 1 if h.get("sync_shows_kind") else 0
         e["results"][h.get("sync_result", "")] = e["results"].get(h.get("sync_result", ""), 0) + 1
     ck.extra["real_syncs_by_kind"] = kinds
     hung = sum(e["hang"] for e in kinds.values())
     if hung:
-        # a libp2p request that did not answer within 40 s even after one retry (loaded machine): inconclusive, not a violation
-        ck.notes.append("%d two-node sync scenario(s) did not return within 40 s after one retry: inconclusive (no verdict from them)" % hung)
-    want = {"fast": lambda e: e["reached_peer_tip"] > 0,
-            "block": lambda e: e["reached_peer_tip"] > 0,
-            "poison": lambda e: any(r not in ("ok", "") for r in e["results"]),
-            "deep": lambda e: any("lower than finalized" in r for r in e["results"])}
+        ck.notes.append("%d two-node sync run(s) did not return within 40 s (abandoned, retried): no verdict from those runs" % hung)
+    # a kind is covered iff at least one of its runs (each scenario is attempted up to 3 times) showed its behaviour: fast/block
+    # reach the peer tip, poison = scripted ABI rejection followed by the real restoreBlocks, deep = refused for a common block below
+    # the finalized height.  A kind that hung or failed in EVERY run is a failed obligation.
     ck.obligations += 1
-    missing = [k for k, f in want.items() if k not in kinds or (not f(kinds[k]) and kinds[k]["hang"] < kinds[k]["runs"])]
-    if ck.extra["finality_raises_during_sync"] > 0 and not missing:
+    missing = [k for k in ("fast", "poison", "deep", "block") if kinds.get(k, {}).get("shows_kind", 0) == 0]
+    if not missing and ck.extra["finality_raises_during_sync"] > 0:
         ck.discharged += 1
-    elif hung and not [k for k in missing if k in kinds and kinds[k]["hang"] == 0]:
-        ck.discharged += 1  # only hung scenarios are missing: inconclusive (noted above)
     else:
-        ck.fail_obligation("generator:sync", "the real two-node syncs through Executer.process did not produce: %s (fast/block must reach the "
-                           "peer tip, poison must fail and restore, deep must be refused for a common block below the finalized height); "
-                           "observed %s" % (missing, json.dumps(kinds)))
+        ck.fail_obligation("generator:sync", "real two-node syncs through Executer.process: kind(s) %s never showed their behaviour in any "
+                           "run (3 attempts each); observed %s" % (missing, json.dumps(kinds)))
+    tb = [s for h in recs for s in h["steps"] if s["what"].startswith("tie-break through Executer.process")]
+    ck.extra["tie_break_steps_through_process"] = len(tb)
+    ck.obligations += 1
+    if any("valid competitor" in s["what"] and s["op"] == "apply" for s in tb) and any("invalid signature" in s["what"] and s["op"] == "delete" for s in tb):
+        ck.discharged += 1
+    else:
+        ck.fail_obligation("generator:tie-break", "no tie-break through Executer.process (valid and invalid competitor) in the histories")
     ck.extra["refused_deletes_at_finality"] = sum(1 for h in recs for s in h["steps"] if s["class"] == "finalized")
     ck.extra["traces_validated_against_impl"] = sum(len(h["steps"]) for h in recs)
     ck.assume += ["maxHeightPrecommited of the post-state is an input (computed by the liskbft module on a scratch staged store)",
